@@ -1247,12 +1247,33 @@ func (c *EvalCtx) evalCall(e *Expr) *V {
 				}
 			}
 			if !found {
-				c.fail("failedCalls: %s has no call site returning an error in this function", e.Args[0].Str)
+				// no call site (any more): no call of it can have failed. Not an evaluation error: a change that
+				// removes the call is judged by the clauses that say what the call was needed for.
+				c.run.noteOnce("failedCalls(" + e.Args[0].Str + "): no such call site in " + c.run.relName)
+				return vInt("0", types.Typ[types.Int])
 			}
 			if t, ok := st.ghost["fail:"+e.Args[0].Str]; ok {
 				return vInt(t, types.Typ[types.Int])
 			}
 			return vInt("0", types.Typ[types.Int])
+		}
+	case "prevcallarg":
+		// prevcallarg("callee", i): the i-th actual argument (receiver first) of the most recent direct call to
+		// callee made by this activation on this path (unknown across loop heads and cut points)
+		argc(2)
+		if e.Args[0].Op != "str" || e.Args[1].Op != "int" {
+			c.fail("prevcallarg(\"callee\", i)")
+		}
+		{
+			as, ok := st.lastArgs[e.Args[0].Str]
+			if !ok {
+				c.fail("prevcallarg: no earlier call of %s on this path", e.Args[0].Str)
+			}
+			i := int(e.Args[1].Int)
+			if i < 0 || i >= len(as) {
+				c.fail("prevcallarg: %s has no argument %d", e.Args[0].Str, i)
+			}
+			return as[i]
 		}
 	case "callarg":
 		// callarg(i): the i-th actual argument (receiver first) of the call an atcall clause is anchored at
@@ -1270,14 +1291,20 @@ func (c *EvalCtx) evalCall(e *Expr) *V {
 	case "oldlocks":
 		// oldlocks(): lock state (held, acquisition counters) of every lock that existed in the pre-state is unchanged;
 		// a lock embedded in a struct is as old as the struct
-		argc(0)
+		if len(e.Args) > 1 || (len(e.Args) == 1 && e.Args[0].Op != "str") {
+			c.fail("oldlocks() or oldlocks(\"held\")")
+		}
 		if c.old == nil {
 			c.fail("oldlocks() needs a pre-state")
 		}
 		{
 			var cs []string
 			a0 := c.old.ghost["alloc"]
-			for _, leaf := range []string{"held", "lockacq"} {
+			leaves := []string{"held", "lockacq"}
+			if len(e.Args) == 1 {
+				leaves = []string{e.Args[0].Str}
+			}
+			for _, leaf := range leaves {
 				x := mangle("q:l")
 				nw, od := st.comp(leaf, 1, "Int"), c.old.comp(leaf, 1, "Int")
 				isOld := "(ite (= (objkind " + x + ") 0) (< " + x + " " + a0 + ") (< (objowner " + x + ") " + a0 + "))"
